@@ -81,7 +81,8 @@ type Job struct {
 	Ctx  int   `json:"ctx,omitempty"`
 	// error flavour of a failing job: EWrap 1/2 = the error wraps
 	// context.DeadlineExceeded / context.Canceled (no context of the case
-	// need be done); EShare = 1+index of an earlier failing job whose error
+	// need be done), 3 = it wraps the error a nested scheduler returned
+	// after one of its jobs called runtime.Goexit; EShare = 1+index of an earlier failing job whose error
 	// instance this job returns as well.
 	EWrap  int `json:"ewrap,omitempty"`
 	EShare int `json:"eshare,omitempty"`
@@ -343,6 +344,8 @@ func GenCase(t *rapid.T, p Profile) *Case {
 				c.Jobs[j].EWrap = 1
 			case 1:
 				c.Jobs[j].EWrap = 2
+			case 4:
+				c.Jobs[j].EWrap = 3 // the error of a nested scheduler one of whose jobs exited its goroutine
 			case 2, 3:
 				if len(failing) > 0 {
 					c.Jobs[j].EShare = 1 + failing[uniform(t, "eshare", len(failing))]
@@ -598,7 +601,7 @@ func (c *Case) Labels() []string {
 		add("n:3+")
 	}
 	fanin, dup, fail, goexit, cancel, late := false, false, 0, false, false, false
-	ewrap, eshare := false, false
+	ewrap, eshare, enested := false, false, false
 	for _, j := range c.Jobs {
 		seen := map[int]bool{}
 		for _, d := range j.Deps {
@@ -619,8 +622,11 @@ func (c *Case) Labels() []string {
 		if Cancels(j.Beh) {
 			cancel = true
 		}
-		if (j.Beh == BErr || j.Beh == BCancelErr) && j.EWrap > 0 {
+		if (j.Beh == BErr || j.Beh == BCancelErr) && (j.EWrap == 1 || j.EWrap == 2) {
 			ewrap = true
+		}
+		if (j.Beh == BErr || j.Beh == BCancelErr) && j.EWrap == 3 {
+			enested = true
 		}
 		if (j.Beh == BErr || j.Beh == BCancelErr) && j.EShare > 0 {
 			eshare = true
@@ -634,6 +640,9 @@ func (c *Case) Labels() []string {
 	}
 	if eshare {
 		add("err:shared-instance")
+	}
+	if enested {
+		add("err:from-nested-scheduler-goexit")
 	}
 	if fanin {
 		add("fanin>=2")
